@@ -77,6 +77,12 @@ func decodeEfaceSlice(buf []byte, l *[]interface{}, elemT reflect.Type, unmarsha
 		if err != nil {
 			return nil, err
 		}
+		if body == nil && elemT != nil {
+			// An element whose encoding is empty is still an element (a marshaler
+			// may write nothing at all for an empty string or an empty message):
+			// what it reads back as is for the unmarshaler to say.
+			body = []byte{}
+		}
 		if body != nil && elemT != nil {
 			elem := reflect.New(elemT)
 			err = unmarshal(body, elem.Interface())
